@@ -60,7 +60,7 @@ func (r *ruleImpl) Execute(ctx heimdall.Context) (rule.Backend, error) {
 		// unescape path
 		request.URL.RawPath = ""
 	case config.EncodedSlashesOff:
-		if strings.Contains(request.URL.RawPath, "%2F") {
+		if containsEncodedSlash(request.URL.RawPath) {
 			return nil, errorchain.NewWithMessage(heimdall.ErrArgument,
 				"path contains encoded slash, which is not allowed")
 		}
@@ -160,7 +160,20 @@ func unescape(value string, handling config.EncodedSlashesHandling) string {
 		return unescaped
 	}
 
-	unescaped, _ := url.PathUnescape(strings.ReplaceAll(value, "%2F", "$$$escaped-slash$$$"))
+	// an encoded slash may be written using upper, or lower case hex digits
+	unescaped, _ := url.PathUnescape(encodedSlashHider.Replace(value))
 
-	return strings.ReplaceAll(unescaped, "$$$escaped-slash$$$", "%2F")
+	return encodedSlashRestorer.Replace(unescaped)
+}
+
+//nolint:gochecknoglobals
+var (
+	encodedSlashHider = strings.NewReplacer(
+		"%2F", "$$$escaped-slash$$$", "%2f", "$$$escaped-lc-slash$$$")
+	encodedSlashRestorer = strings.NewReplacer(
+		"$$$escaped-slash$$$", "%2F", "$$$escaped-lc-slash$$$", "%2f")
+)
+
+func containsEncodedSlash(path string) bool {
+	return strings.Contains(path, "%2F") || strings.Contains(path, "%2f")
 }
